@@ -30,9 +30,14 @@ fn esc(s: &str) -> String {
 const FLOP: [u8; 3] = [9, 26, 51]; // Qh 8d 2c
 
 /// drain an evaluator over parsed ranges, restricted to the first positions
+/// `positions`: 0 = the whole enumeration, k > 0 = the first k positions, 255 = the last rows
 fn drain_parsed(players: &[HandRange], positions: u8, mode: Mode) -> Result<u64, Fail> {
     let mut ev = FlopExhaustiveEvaluator::new(&e_board(&FLOP), &players.to_vec());
-    ev.scope(0, 1, 0, 1 + positions);
+    match positions {
+        0 => {}
+        255 => ev.scope(45, 46, 48, 49),
+        k => ev.scope(0, 1, 0, 1 + k),
+    }
     let mut n = 0u64;
     for s in ev {
         n += 1;
@@ -139,13 +144,31 @@ pub fn check(mode: Mode, s: &str) -> CheckResult {
         if let Some(res) = guarded!("FlopExhaustiveEvaluator over the parsed range", drain_parsed(&[r1], positions, mode)) {
             res?;
         }
+        // to the very end: the whole enumeration for small ranges, the last turn rows otherwise
+        let r1 = r.clone();
+        if let Some(res) = guarded!("FlopExhaustiveEvaluator over the parsed range, drained to the end", drain_parsed(&[r1], if n <= 24 { 0 } else { 255 }, mode)) {
+            res?;
+        }
         if n <= 400 {
             let (r1, f) = (r.clone(), fixed.clone());
             if let Some(res) = guarded!("FlopExhaustiveEvaluator over the parsed range and a second player", drain_parsed(&[f, r1], positions, mode)) {
                 res?;
             }
         }
-        if n <= 40 && n > 0 {
+        if n <= 16 && n > 0 {
+            // the parsed range at seats 0 and 2 around a player that shares no card with it
+            let mut used = 0u64;
+            for (k, _) in r.card_pairs().iter() {
+                used |= 1 << cid_of(&k[0]) | 1 << cid_of(&k[1]);
+            }
+            let free: Vec<u8> = (0..52u8).filter(|c| used >> c & 1 == 0 && !FLOP.contains(c)).collect();
+            if free.len() >= 2 {
+                let middle: HandRange = [(e_pair(free[0], free[free.len() - 1]), 0.5f32)].into_iter().collect();
+                let (r1, r2) = (r.clone(), r.clone());
+                if let Some(res) = guarded!("FlopExhaustiveEvaluator over the parsed range at seats 0 and 2", drain_parsed(&[r1, middle, r2], 1, mode)) {
+                    res?;
+                }
+            }
             let (r1, r2) = (r.clone(), r.clone());
             if let Some(res) = guarded!("FlopExhaustiveEvaluator over the parsed range twice", drain_parsed(&[r1, r2, fixed], 2, mode)) {
                 res?;
@@ -403,7 +426,7 @@ pub fn run(ctx: &mut Ctx, mode: Mode) {
     let tier = ctx.tier;
     match mode {
         Mode::Total => {
-            ctx.rule = "strings: (1) every string of length 0-3 (thorough 0-4) over the 29-symbol alphabet ranks + 'shdco+-:.,01' + space + é (2 bytes) + € (3) + 😀 (4); (2) every string matching a token shape with arbitrary ranks - XY, XY+, XYk, XYk+, XY-ZW, XYk-ZWk', all 52x52 card-pair texts incl. both cards equal - without and with ':0.5'; every single and double substitution of a notation character by a Unicode look-alike of its class (decimal digits of other scripts, full-width forms, Kelvin sign, long s, dashes, ...) in valid texts of every shape and weight form; (3) proptest: valid notation with one or two characters inserted/replaced/deleted at any offset (multi-byte, NUL, combining, notation characters), comma lists mixing valid tokens with junk and the degenerate spans '22-AA','KAs+','2As+', arbitrary Unicode, weight literals, over-long inputs (up to 10^5 characters, 10^4 commas, 2,000 tokens). Oracle under catch_unwind: parse as Rank, Suit, Card, CardPair, HandRangeToken, HandRange returns; every Ok value is formatted, expanded, decomposed (rank_pairs, orphan_card_pairs) and drained through FlopExhaustiveEvaluator (alone, beside a fixed player, twice) on the first positions. Non-trivial = accepted by some parser, or contains a multi-byte character, or has a token shape; distinct by string.".into();
+            ctx.rule = "strings: (1) every string of length 0-3 (thorough 0-4) over the 29-symbol alphabet ranks + 'shdco+-:.,01' + space + é (2 bytes) + € (3) + 😀 (4); (2) every string matching a token shape with arbitrary ranks - XY, XY+, XYk, XYk+, XY-ZW, XYk-ZWk', all 52x52 card-pair texts incl. both cards equal - without and with ':0.5'; every single and double substitution of a notation character by a Unicode look-alike of its class (decimal digits of other scripts, full-width forms, Kelvin sign, long s, dashes, ...) in valid texts of every shape and weight form; (3) proptest: valid notation with one or two characters inserted/replaced/deleted at any offset (multi-byte, NUL, combining, notation characters), comma lists mixing valid tokens with junk and the degenerate spans '22-AA','KAs+','2As+', arbitrary Unicode, weight literals, over-long inputs (up to 10^5 characters, 10^4 commas, 2,000 tokens). Oracle under catch_unwind: parse as Rank, Suit, Card, CardPair, HandRangeToken, HandRange returns; every Ok value is formatted, expanded, decomposed (rank_pairs, orphan_card_pairs) and drained through FlopExhaustiveEvaluator (alone on the first positions and to the very end - the whole enumeration for ranges of <= 24 combos, the last turn rows otherwise -, beside a fixed player, twice, at seats 0 and 2 around a disjoint player). Non-trivial = accepted by some parser, or contains a multi-byte character, or has a token shape; distinct by string.".into();
         }
         Mode::Content => {
             ctx.rule = "same string generators as C09 plus every weight literal [01](.d{1,3})? on one token of each shape and generated literals (1.0..01, 0.99.., 40-digit fractions, exponents, NaN/inf). Oracle: every combo of every Ok card pair / token / range has two different cards and a weight w with 0 <= w <= 1; evaluator runs over the parsed ranges (alone, beside a fixed player, the range twice) yield only showdowns with probability in [0,1] and 5+2n pairwise distinct cards. Panics are C09's subject and skipped here. Non-trivial = the string parses to a card pair, token or non-empty range; distinct by string.".into();
